@@ -50,6 +50,10 @@ Proof.
   rewrite (proj2 (t2_eqb_eq t2_0 t2_0) eq_refl). apply andb_true_r.
 Qed.
 
+(* identity-cache invariant: the flag cached from the scalar is the flag of the point *)
+Lemma public_key_eq sk : public_key sk = mk_pubkey (pk_of sk).
+Proof. unfold public_key, mk_pubkey. now rewrite is_O2_pk. Qed.
+
 Lemma verify_E1_G sk sg eta :
   verify_E1 (pk_of sk) (sg, t1_0) (eta, t1_0) = feqb sg (fmul sk eta).
 Proof.
@@ -70,7 +74,7 @@ Theorem verify_iff_canonical_sig sk b hpt :
    <-> (sk <> f0 /\ b = enc1 (smul1 sk hpt))).
 Proof.
   intro Hh. apply inG1_iff in Hh as [eta ->].
-  rewrite verify_unfold. unfold public_key, mk_pubkey. cbn [pk_is_identity pk_point].
+  rewrite verify_unfold. rewrite public_key_eq. unfold mk_pubkey. cbn [pk_is_identity pk_point].
   rewrite is_O2_pk. rewrite smul1_G. split.
   - intro H. injection H as H.
     destruct (Nat.eqb _ _) eqn:El; [|discriminate].
